@@ -22,7 +22,7 @@ EPOCH = datetime.datetime(1970, 1, 1, tzinfo=datetime.timezone.utc)
 
 TIERS = {
     "quick": {"runs": 480, "damage_scale": 1.0},
-    "thorough": {"runs": 16000, "damage_scale": 2.0},
+    "thorough": {"runs": 36000, "damage_scale": 2.0},
 }
 
 
